@@ -21,7 +21,7 @@ warnings.filterwarnings("ignore")
 logging.disable(logging.CRITICAL)
 
 REL_TOL = 1e-6                      # float32 FDR buffer inside tdc
-SCORE_DTYPES = ("float64", "float32", "int8", "uint8")
+SCORE_DTYPES = ("float64", "float32", "int8", "uint8", "int64", "uint64")
 LABEL_ENCS = ("bool", "int", "float")
 # strictly increasing rescalings, per dtype (index = rank value 0..5); integer tables touch the dtype limits
 RESCALE = {
@@ -29,6 +29,11 @@ RESCALE = {
     "float32": lambda r: np.exp(r / 2.0).astype(np.float32),
     "int8": lambda r: np.array([-128, -5, 0, 1, 77, 127], dtype=np.int8)[r.astype(int)],
     "uint8": lambda r: np.array([0, 1, 2, 100, 200, 255], dtype=np.uint8)[r.astype(int)],
+    # neighbouring integers far above 2**24 (float32 cannot tell them apart) up to the last exact double
+    "int64": lambda r: np.array([-2 ** 53 + 1, -2 ** 40 - 1, -2 ** 40, 2 ** 24 + 1, 2 ** 24 + 2, 2 ** 53 - 1],
+                                dtype=np.int64)[r.astype(int)],
+    "uint64": lambda r: np.array([0, 2 ** 24 + 1, 2 ** 24 + 2, 2 ** 40, 2 ** 40 + 1, 2 ** 53 - 1],
+                                 dtype=np.uint64)[r.astype(int)],
 }
 FIXED_FDRS = (0.01, 0.05, 0.1, 0.2, 0.25, 1 / 3, 0.4, 0.5, 2 / 3, 0.75, 0.9, 1.0)
 
@@ -238,8 +243,9 @@ def check_tdc_formula(tier, seed):
         "tdc_formula", "mokapot.qvalues.tdc",
         "exhaustive: every weak ordering x every target/decoy labelling x both directions for n = 1..%d "
         "(%s weak orderings; %d (ordering, labelling, direction) cases), each for score dtypes "
-        "float64/float32/int8/uint8 x label encodings bool/int/float, plus one strictly increasing rescaling per "
-        "dtype and the reversed input; random: %d vectors (seed %d) of length 7..60 with ties, all dtypes; "
+        "float64/float32/int8/uint8/int64/uint64 x label encodings bool/int/float, plus one strictly increasing "
+        "rescaling per dtype (64-bit integers: neighbouring values between 2**24 and 2**53) and the reversed input; "
+        "random: %d vectors (seed %d) of length 7..60 with ties, float and 8-bit dtypes; "
         "tolerance %g relative to the exact rational oracle"
         % (nmax, counts, sum(c * 2 ** n * 2 for n, c in counts.items()), n_rand, seed, REL_TOL),
         "rank vectors 0..k-1 are the scores (rescaled through per-dtype tables reaching the dtype limits); oracle = "
